@@ -289,11 +289,109 @@ def check_C20(A, R, tier):
         R.ob("R20.3", "%s | propagates Err of %s" % (short(n), ",".join(sorted(set(short(c) for _, c in calls)))), has_err,
              detail="the wrapper cannot return Err although the evaluator call can", site=b.span["s"])
     R.floor("R20.3", "python wrappers of fallible evaluator calls", n_wrap, 5)
+    rule_wrapper_fidelity(A, R, "R20.3", ("event_", "add_"))
     R.explanation = ("Trace-partitioned abstract interpretation of the four event functions from each of the %d concrete job "
                      "states and of event_startup from each start status: the accepted set must equal an independently "
                      "derived class, a rejection must be exactly Err(APIError), and the partition run of every rejected "
                      "state must record no store, set/map mutation, signal emission or call into signal processing." % len(A.JS))
     R.assume("unknown job ids are outside the statement (\"on every known job\")")
+
+
+# the python-facing name of each evaluator entry point: confirmed by reading src/lib.rs (#[pymethods] impl), one line each
+WRAPPERS = {
+    "add_node": "add_node",                                   # declares a job
+    "add_edge": "depends_on",                                 # declares a dependency (arguments in the same order)
+    "event_startup": "event_startup",
+    "event_now_running": "event_now_running",
+    "event_job_success": "event_job_finished_success",
+    "event_job_failure": "event_job_finished_failure",
+    "event_job_cleanup_done": "event_job_cleanup_done",
+    "event_abort": "abort_remaining",
+    "list_upstream_failed_jobs": "query_upstream_failed",
+    "jobs_ready_to_run": "query_ready_to_run",
+    "next_job_ready_to_run": "next_job_ready_to_run",
+    "jobs_running": "query_jobs_running",
+    "jobs_ready_for_cleanup": "query_ready_for_cleanup",
+    "is_finished": "is_finished",
+    "new_history": "new_history",
+    "get_job_output": "get_job_output",
+}
+
+
+# equivalent ways to obtain the same report
+WRAPPER_ALTERNATIVES = {"next_job_ready_to_run": ("query_ready_to_run",)}
+
+
+def rule_wrapper_fidelity(A, R, rule, prefixes=None, exclude=None):
+    """what python calls is what the evaluator does: every #[pymethods] wrapper calls the evaluator entry point it stands for (and
+    no other entry point that changes or reports the evaluation), on every regular path, with its own textual arguments in the
+    same order"""
+    import rules_more
+    evm = dict((short(b.name), b) for b in A.evaluator_methods())
+    n = 0
+    for nme in A.facts.order:
+        b = A.facts.bodies[nme]
+        if b.kind != "AssocFn" or "PyPPG2Evaluator" not in nme or "{closure" in nme:
+            continue
+        w = short(nme)
+        if w not in WRAPPERS:
+            continue
+        if prefixes is not None and not any(w.startswith(p_) for p_ in prefixes):
+            continue
+        if exclude is not None and any(w.startswith(p_) for p_ in exclude):
+            continue
+        want = WRAPPERS[w]
+        calls = []
+        for blk in b.blocks:
+            if blk["cleanup"]:
+                continue
+            t = blk["term"]["t"]
+            if t["k"] == "call":
+                c = M.callee_of(t)
+                tgt = short(c[1] or c[0]) if c else None
+                full = (c[1] or c[0]) if c else None
+                if tgt in evm and full == evm[tgt].name and evm[tgt].vis == "Public":
+                    calls.append((blk["i"], tgt, t))
+        n += 1
+        mutating = lambda tg: tg.startswith(("event_", "abort_", "add_", "depends_on", "reconsider_"))
+        alts = {want} | set(WRAPPER_ALTERNATIVES.get(w, ()))
+        mine = [(bi, t) for (bi, tg, t) in calls if tg == want]
+        if mutating(want):
+            # an event: it is forwarded, and nothing else that changes the evaluation is called in its name
+            others = sorted(set(tg for (_bi, tg, _t) in calls if tg != want and mutating(tg)))
+            R.ob(rule, "%s | the python-facing wrapper forwards to %s and to no other call that changes the evaluation" % (w, want),
+                 bool(mine) and not others,
+                 detail=("also calls %s" % others) if others else ("never calls %s" % want), site=b.span["s"])
+        else:
+            # a report: what is returned derives from the report it stands for, from no other report, and nothing is changed
+            others = sorted(set(tg for (_bi, tg, _t) in calls if tg not in alts and not tg.startswith("debug")))
+            used = [tg for (_bi, tg, _t) in calls if tg in alts]
+            sl = rules_more.backward_slice(b, 0)
+            derives = any(evm[tg].name in sl["calls"] for tg in used)
+            R.ob(rule, "%s | the python-facing wrapper returns what %s reports (and consults nothing else)" % (w, "/".join(sorted(alts))),
+                 bool(used) and derives and not others,
+                 detail=("also calls %s" % others) if others else ("the returned value does not derive from %s" % "/".join(sorted(alts))),
+                 site=b.span["s"])
+        # textual arguments: passed on in their own order
+        for (bi, t) in mine[:1]:
+            order = []
+            for o in t["args"][1:]:
+                pl = o.get("copy") or o.get("move")
+                if pl is None:
+                    order.append(None)
+                    continue
+                sl = rules_more.backward_slice(b, pl["l"])
+                ps = sorted(x for x in sl["params"] if x != 1 and b.locals[x]["s"] in ("&str", "std::string::String", "&std::string::String"))
+                order.append(ps[0] if len(ps) == 1 else None)
+            strs = [x for x in order if x is not None]
+            str_params = [i for i in range(2, b.arg_count + 1) if b.locals[i]["s"] in ("&str", "std::string::String", "&std::string::String")]
+            if len(str_params) >= 1 and want != "add_node":
+                R.ob(rule, "%s | passes its own textual arguments to %s in the same order" % (w, want), strs == str_params,
+                     detail="parameters %s arrive as %s" % (str_params, strs), site=b.span["s"])
+            elif want == "add_node":
+                R.ob(rule, "%s | passes the job id to %s" % (w, want), strs[:1] == str_params[:1],
+                     detail="parameters %s arrive as %s" % (str_params, strs), site=b.span["s"])
+    R.floor(rule, "python-facing wrappers with a known counterpart", n, 3)
 
 
 # =============================================================================================
@@ -420,6 +518,8 @@ def check_C17(A, R, tier):
             if not (v2 is not None and v2[0] == "fin" and set(v2[2]) == {(1,)}):
                 bad.append(A.sname(fs_))
         R.ob("R17.5", "is_finished | %s | all jobs finished => true" % sn, not bad, detail="not decided as true with every job in %s" % bad)
+    # R17.8: python sees the reports under other names: each of those wrappers returns what the report it stands for returns
+    rule_wrapper_fidelity(A, R, "R17.8", exclude=("event_", "add_"))
     # ... and the converse: 'finished' only when every job is finished (the scan covers all jobs)
     from rules_more import rule_finished_means_all
     rule_finished_means_all(A, R, "R17.5")
